@@ -70,3 +70,29 @@ theorem compute_ok_iff (asset : String) (acctName : Nat → String) (period : In
     simp only [hfs, hbs]
     exact ⟨_, rfl⟩
 end Rp2
+
+namespace Rp2
+/-- **C10, on the `compute` model: the from-date only hides.** The same computation with and without a from-date (same to-date): the
+    balances, the average price and the running sums are identical, and the fractions shown — *with their `k/n` numbering* — are those of
+    the run without a from-date whose event is dated on or after it. Numbering, balances and price reflect all history up to the to-date. -/
+theorem compute_from_date_only_hides (asset : String) (acctName : Nat → String) (period : Int) (allowNeg : Bool) (d : Int) (toD : Option Int)
+    (sched : List (Int × Method)) (ins : List InTx) (outs : List OutTx) (intras : List IntraTx) (cd cd0 : Computed)
+    (h : compute asset acctName period allowNeg (some d) toD sched ins outs intras = .ok cd)
+    (h0 : compute asset acctName period allowNeg none toD sched ins outs intras = .ok cd0) :
+    cd.bals = cd0.bals ∧ cd.price = cd0.price ∧ cd.inRun = cd0.inRun ∧ cd.outRun = cd0.outRun ∧ cd.intraRun = cd0.intraRun ∧
+    cd.fracs = cd0.fracs.filter (fun n => decide (d ≤ n.f.ev.ts.day)) := by
+  unfold compute at h h0
+  split at h
+  · cases h
+  · rename_i fs hfs
+    rw [hfs] at h0
+    simp only at h0
+    split at h
+    · cases h
+    · rename_i bs hbs
+      rw [hbs] at h0
+      simp only [Except.ok.injEq] at h h0
+      subst h; subst h0
+      refine ⟨rfl, rfl, rfl, rfl, rfl, ?_⟩
+      simp
+end Rp2
